@@ -22,6 +22,69 @@ def load_table(section):
     return out
 
 
+EXT_TABLE = os.path.join(VERIF, "tables", "external_calls.json")
+STD_CRATES = ("core", "std", "alloc")
+
+
+def callee_crate(path):
+    """Crate that defines the called item: first path segment, or the trait's crate for `<T as krate::Trait>::f`."""
+    p = path
+    if p.startswith("<"):
+        i = p.find(" as ")
+        if i >= 0:
+            p = p[i + 4:]
+        else:
+            p = p[1:]
+        p = p.lstrip("&").lstrip("<")
+    return p.split("::", 1)[0].strip("<>&' ")
+
+
+def load_external():
+    if not os.path.exists(EXT_TABLE):
+        return {}
+    with open(EXT_TABLE) as f:
+        t = json.load(f)
+    return {e["path"]: e for e in t.get("total", [])}
+
+
+def check_external_callees(cx, region, label):
+    """Third-party code cannot be enumerated for panic sites (no MIR).  Every callee of a crate other than
+    core/std/alloc called inside a totality region must therefore be either a recognised panicking API (then it
+    is a panic site like any other) or listed as total, with a reason, in tables/external_calls.json.  A call to
+    a third-party function nobody reviewed is reported - it may assert on its arguments."""
+    from .panics import api_class
+    from .callgraph import strip_generics
+    prog = cx.prog
+    table = load_external()
+    seen = {}
+    for did, blocks in sorted(region.items()):
+        b = prog.by_did[did]
+        for bi in sorted(blocks):
+            t = b.blocks[bi]["term"]
+            if t["k"] != "call" or not t.get("callee"):
+                continue
+            ce = t["callee"]
+            if ce.get("local") or ce.get("resolved_local"):
+                continue
+            path = strip_generics(ce.get("path") or "")
+            if callee_crate(path) in STD_CRATES:
+                continue
+            cls, _suf = api_class(t)
+            if cls is not None:
+                continue
+            seen.setdefault(path, (b, bi))
+    n_ok = 0
+    for path, (b, bi) in sorted(seen.items()):
+        e = table.get(path)
+        if e is None:
+            cx.check("%s:unreviewed-third-party-callee:%s" % (label, path), False, site_of(b, bi),
+                     "call to %s: a third-party function that is neither a recognised panicking API nor listed as total in tables/external_calls.json (it may assert on its arguments)" % path)
+        else:
+            n_ok += 1
+    cx.check("%s:third-party-callees" % label, True, None, "%d distinct third-party callees in the region, all reviewed as total or treated as panic sites" % n_ok, how="table")
+    return len(seen)
+
+
 def call_path(prog, entries, did):
     for e in entries:
         p = prog.cg.path(e.did, did)
@@ -72,6 +135,7 @@ def check_region(cx, region, section, entries, label, allow_table=True):
                 extra = " (table lists %d site(s) of this key, found %d)" % (e["count"], len(lst))
             cx.check("%s:panic-site:%s" % (label, key), False, s.where(),
                      "possible panic not discharged: %s; reachable via %s%s" % (why, call_path(prog, entries, s.body.did), extra))
+    check_external_callees(cx, region, label)
     # stale table entries are reported as notes (not failures): a removed site is not a violation
     used = set(rest.keys())
     for key in table:
